@@ -5,7 +5,7 @@ specs/RpmVercmpTrace.tla (TLC re-evaluates the reference on the same inputs).
 usage: drive_rpm.py <in.json> <out.json>
 in : {"jobs": [ {"id":.., "kind":"vrows", "strs":[[code,..],..], "rows":[i,..]}           (1-based indices)
               | {"id":.., "kind":"erows", "evrs":[{"e":[..],"v":[..],"r":[..]},..], "rows":[i,..],
-                 "sel":[[i,..],..], "variant": n}
+                 "sel":[[i,..],..], "variant": n}      (sel: package lists for newest / oldest, in this order)
               | {"id":.., "kind":"table"} ]}
 out: {"traces":[{"id":..,"strs":[..],"evrs":[..],"events":[..]}], "stats":{..}}
 
@@ -15,7 +15,7 @@ import json
 import sys
 
 from insights.parsers import installed_rpms
-from insights.parsers.installed_rpms import InstalledRpm, InstalledRpms
+from insights.parsers.installed_rpms import InstalledRpm, InstalledRpms, RpmList
 from insights.parsers.rpm_vercmp import _rpm_vercmp, rpm_version_compare
 from insights.tests import context_wrap
 
@@ -87,6 +87,8 @@ def make_rpm(x, variant):
 
 
 def ops(x, y):
+    if x is None or y is None:
+        return []
     try:
         r = [x < y, x == y, x > y, x <= y, x >= y, x != y]
     except Exception:
@@ -97,46 +99,114 @@ def ops(x, y):
     return r
 
 
-def select(evrs, idxs, variant):
-    """newest / oldest through the InstalledRpms parser; returns 1-based positions in idxs
-    of the returned objects (0: not one of the parsed packages, -1: raised)."""
-    ds = [evr_dict(evrs[i - 1]) for i in idxs]
-    lines = None
-    if variant % 2 == 1:
+VIAS = ["json", "line", "yum-installed", "yum-available", "mixin", "extended"]
+
+
+class OwnRpmList(RpmList):
+    """A component of its own using the RpmList mixin: it only provides ``packages``."""
+
+    def __init__(self, packages):
+        self.packages = packages
+
+
+def yum_row(d, n):
+    """A 'yum list' row carrying the triple; the position travels in the repository column."""
+    v, r, e = d["version"], d["release"], d.get("epoch")
+    if not v or not r or not (set(v) | set(r)) <= SAFE or (e is not None and not e.isdigit()):
+        return None
+    return "%s.%s   %s%s-%s   @ix%d" % (d["name"], d["arch"], (e + ":") if e is not None else "", v, r, n)
+
+
+def container(via, ds):
+    """An RpmList holding the packages ds (in this order) built the way `via` says, or None when that
+    format cannot carry them.  Every package object can be mapped back to its position (tag_of)."""
+    if via == "json":
+        return InstalledRpms(context_wrap("\n".join(json.dumps(dict(d, vix=n + 1)) for n, d in enumerate(ds))))
+    if via == "line":
         lines = [line_of(d) for d in ds]
         if any(ln is None for ln in lines):
-            lines = None
-    if lines is None:
-        lines = [json.dumps(d) for d in ds]
-    rpms = InstalledRpms(context_wrap("\n".join(lines)))
-    pk = rpms.packages.get("pkg", [])
-    # only the carriage of version / release is checked here; how the epoch text is interpreted is
-    # part of the code under test and judged by the trace specification
-    got = [(p.version, p.release) for p in pk]
-    want = [(d["version"], d["release"]) for d in ds]
-    if len(pk) != len(ds) or got != want:
-        if variant % 2 == 1:
-            return select(evrs, idxs, 0)       # the line format did not carry the triples: use JSON
-        raise RuntimeError("driver: InstalledRpms did not load the generated packages: %r" % (lines,))
-    out = []
-    for f in (rpms.newest, rpms.oldest):
+            return None
+        # the position travels in the first sosreport column (installtime)
+        return InstalledRpms(context_wrap("\n".join("%s    ix%d" % (ln, n + 1) for n, ln in enumerate(lines))))
+    if via in ("yum-installed", "yum-available"):
+        rows = [yum_row(d, n + 1) for n, d in enumerate(ds)]
+        if any(r is None for r in rows):
+            return None
+        from insights.parsers.yum_list import YumListAvailable, YumListInstalled
+        head = ["Loaded plugins: product-id, subscription-manager",
+                "Installed Packages" if via == "yum-installed" else "Available Packages"]
+        cls = YumListInstalled if via == "yum-installed" else YumListAvailable
+        return cls(context_wrap("\n".join(head + rows)))
+    if via == "mixin":
+        return OwnRpmList({"pkg": [InstalledRpm(dict(d, vix=n + 1)) for n, d in enumerate(ds)]})
+    if via == "extended":
+        # parsed from `rpm -qa` data, then the packages dictionary is extended by its user
+        rpms = InstalledRpms(context_wrap(json.dumps(dict(ds[0], vix=1))))
+        for n, d in enumerate(ds[1:], 2):
+            rpms.packages.setdefault("pkg", []).append(InstalledRpm(dict(d, vix=n)))
+        return rpms
+    raise ValueError("driver: unknown container kind %r" % via)
+
+
+def tag_of(p):
+    """Position (1-based) the package object was generated at, 0 when it carries none."""
+    if not isinstance(p, InstalledRpm):
+        return 0
+    for attr in ("vix", "installtime", "repo"):
+        t = getattr(p, attr, None)
+        if isinstance(t, int) and not isinstance(t, bool):
+            return t
+        if isinstance(t, str) and t.startswith("ix") and t[2:].isdigit():
+            return int(t[2:])
+    return 0
+
+
+def select(evrs, idxs):
+    """newest / oldest / get_max / get_min on every kind of RpmList that can hold the packages.
+    Whatever the code under test does (including raising) becomes a recorded observation:
+    n = number of the generated packages the container holds (-1: building it raised),
+    results = position of the returned object (0: not one of the packages, -1: raised)."""
+    ds = [evr_dict(evrs[i - 1]) for i in idxs]
+    events = []
+    for via in VIAS:
+        ev = {"ev": "sel", "via": via, "pk": idxs, "n": -1, "mx": -1, "mn": -1, "gmx": -1, "gmn": -1}
         try:
-            r = f("pkg")
+            c = container(via, ds)
+            if c is None:
+                continue                     # this format cannot carry these triples (concretisation choice)
+            held = sorted(tag_of(p) for p in c.packages.get("pkg", []))
         except Exception:
             STATS["raised"] += 1
-            out.append(-1)
+            events.append(ev)
             continue
-        pos = [n + 1 for n, p in enumerate(pk) if p is r]
-        out.append(pos[0] if pos else 0)
-    STATS["sel_calls"] += 2
-    return out
+        if held != list(range(1, len(ds) + 1)) and via in ("line", "yum-installed", "yum-available"):
+            continue                         # the text format did not carry the packages: not a C13 observation
+        ev["n"] = len([t for t in held if t > 0])
+        for key, name in (("mx", "newest"), ("mn", "oldest"), ("gmx", "get_max"), ("gmn", "get_min")):
+            try:
+                ev[key] = tag_of(getattr(c, name)("pkg"))
+            except Exception:
+                STATS["raised"] += 1
+                ev[key] = -1
+            STATS["sel_calls"] += 1
+        STATS["sel_" + via] = STATS.get("sel_" + via, 0) + 1
+        events.append(ev)
+    return events
+
+
+def safe_rpm(x, variant):
+    try:
+        return make_rpm(x, variant)
+    except Exception:
+        STATS["raised"] += 1
+        return None                          # every call on it is then recorded as raised
 
 
 def erows(job):
     evrs = job["evrs"]
     variant = job.get("variant", 0)
-    left = [make_rpm(x, variant + n) for n, x in enumerate(evrs)]
-    right = [make_rpm(x, variant + n + 1) for n, x in enumerate(evrs)]     # distinct objects
+    left = [safe_rpm(x, variant + n) for n, x in enumerate(evrs)]
+    right = [safe_rpm(x, variant + n + 1) for n, x in enumerate(evrs)]     # distinct objects
     events = []
     for i in job["rows"]:
         a = left[i - 1]
@@ -145,9 +215,8 @@ def erows(job):
         STATS["evr_calls"] += len(cmp_)
         STATS["op_calls"] += 6 * len(o)
         events.append({"ev": "erow", "a": i, "cmp": cmp_, "ops": o})
-    for n, idxs in enumerate(job.get("sel", [])):
-        mx, mn = select(evrs, idxs, variant + n)
-        events.append({"ev": "sel", "pk": idxs, "mx": mx, "mn": mn})
+    for idxs in job.get("sel", []):
+        events.extend(select(evrs, idxs))
     return {"id": job["id"], "strs": [], "evrs": evrs, "events": events}
 
 
